@@ -515,6 +515,20 @@ def run(facts, rep, tier, ctx):
     for w12 in (ws, wa):
         if w12.present():
             _PR12(facts, w12, D).argument_only_refusals(rep if not w12.asyncw else _Pf12(rep, "A"), "R12.3p")
+    # R12.3g through an altroot a missing entry is not-found like everywhere else: the translator refuses no name itself
+    # (InvalidPath for "notes..txt"), R12.3x the embedded observers answer from the index (a spelling rust-embed resolves
+    # but the index lacks is not-found, not "not a directory")
+    from . import c07 as _c07g
+    for w12 in (ws, wa):
+        if w12.present():
+            _c07g.gate_rules(facts, _Pf12(rep, ("A/" if w12.asyncw else "") + "R12.3g"), w12, D)
+    if any(b_.impl and b_.impl["self_ty"].startswith("impls::embedded::") for b_ in facts.bodies):
+        from . import c18 as _c18x
+        scrx = Report("z")
+        _c18x.run(facts, scrx, "quick", ctx)
+        for o in scrx.obligations:
+            if o["rule"] == "R18.3":
+                rep.ob("R12.3x", o["fn"], o["key"].split("|")[2], o["ok"], o["detail"], o["loc"])
     k_io = io_error_origin(facts, rep)
     rep.floor("io::Error construction sites (in-memory seek arithmetic)", k_io, 2)
     scratch = Report("x")
@@ -563,7 +577,7 @@ def run(facts, rep, tier, ctx):
         c09.table_u(facts, scratch, w_, "U", only=("create_dir",))
         for o in scratch.obligations:
             d = o["key"].split("|")[2]
-            if "Exists for a union" in d:
+            if "Exists for a union" in d or "every other refusal" in d:
                 rep.ob(("A/" if w_.asyncw else "") + "R12.3e", o["fn"], d, o["ok"], o["detail"], o["loc"])
     if wa.present():
         from .c10 import _Prefixed
